@@ -321,8 +321,12 @@ def run_combo(arg):
         raise common.Nondeterminism("same schedule, different observations: %s"
                                     % label)
     st = S.Stats()
+
+    def tick():
+        sh.n += 1                      # heartbeat for the watchdog
+
     v, st = S.explore(h.make_run, h.check, bound=bound, cache=True,
-                      max_exec=max_exec, stats=st)
+                      max_exec=max_exec, stats=st, tick=tick)
     sh.n = st.executions
     sh.nt = st.states
     sh.extra["states"] = st.states
